@@ -209,10 +209,34 @@ def call(watch, op, arg):
     if v is watch:
         return ('ok', 'self')
     if op == 'split':
+        HANDED_OUT.append((v, (v.elapsed, v.length)))
         return ('ok', (v.elapsed, v.length))
     if op == 'splits':
-        return ('ok', [(s.elapsed, s.length) for s in v])
+        vals = [(s.elapsed, s.length) for s in v]
+        # (the container may be a live view in some other tree; the records
+        # in it are what must not change)
+        for s_, val in zip(v, vals):
+            if len(HANDED_OUT) < 200:
+                HANDED_OUT.append((s_, val))
+        return ('ok', vals)
     return ('ok', v)
+
+
+# objects handed out by split() / splits in the current run, with what they
+# read when they were handed out: a later call must not change them
+HANDED_OUT = []
+
+
+def handed_out_changed():
+    for obj, was in HANDED_OUT:
+        try:
+            now_ = (obj.elapsed, obj.length) if not isinstance(was, list) \
+                else [(s.elapsed, s.length) for s in obj]
+        except Exception as e:
+            return ('unreadable', type(e).__name__, was)
+        if now_ != was:
+            return ('changed', was, now_)
+    return None
 
 
 class C13(Check):
@@ -300,6 +324,7 @@ class C13(Check):
         old_now = tu.now
         tu.now = clock.read
         trans = set()
+        del HANDED_OUT[:]
         try:
             watch = tu.StopWatch(duration=case['duration'])
             model = Model(case['duration'])
@@ -333,6 +358,11 @@ class C13(Check):
                 if got[0] == 'exc':
                     viol('unexpected_exception', op=op, index=i,
                          exc=got[1], state=st_before)
+                    break
+                ch = handed_out_changed() if HANDED_OUT else None
+                if ch is not None:
+                    viol('earlier_result_changed', op=op, index=i,
+                         what=repr(ch)[:300])
                     break
                 if got[0] != want[0]:
                     viol('legality_mismatch', op=op, index=i,
